@@ -26,6 +26,7 @@ func checkC05(c *Ctx) {
 	r.Rule("R07.3", "(shared with C07) among equal keys the last one given wins: stable sort, consistent comparator")
 	r.Rule("R09.2", "(shared with C09) every attribute under its own key: no dotted key, number or text rendered for one record is kept in package-level state (an interning table) for another")
 	r.Rule("R02.8", "(shared with C02) hand-written formatters stay inside their scratch tables")
+	r.Rule("R16.2", "(shared with C16) the time member identifies the instant: layout decision and layout table (no 12-hour clock without AM/PM, zone printed)")
 	r.Rule("R19.1", "(shared with C19) the record is the bytes the encoder appended: the write side of the formatting buffer is isomorphic to bytes.Buffer")
 	r.Rule("R15.3", "(shared with C15) attributes arriving through the log/slog handler keep key and value: each kind arm hands on the key and the value read with the accessor of its own kind, groups nested, LogValuers resolved")
 	r.Rule("R15.4", "(shared with C15) every attribute under its own key with its own value: handlers derived for log/slog own a fresh copy of the bound field list")
@@ -62,6 +63,7 @@ func checkC05(c *Ctx) {
 		c02Pool(c, p, m)
 		dedupeEquality(c, p, m, "R05.9")
 		pooledCtxFromConstructor(c, p, "R05.9")
+		c16Timestamp(c, p, m)
 		countersBalanced(c, p, m, "R05.7")
 		c09Globals(c, p, m)
 		constBounds(c, p, m)
